@@ -4,14 +4,14 @@
 
   Model of the code as written:
   * a struct type is a `Schema` = the type bytes of field 0's `sshtype` tag + the list of field kinds;
-  * `Unmarshal` on a struct without fields panics (`typeTags` evaluates `structType.Field(0)`);
-    so does `Marshal`;
+  * a struct without fields has no type tags (`typeTags` returns nil): `Marshal` gives the empty string,
+    `Unmarshal` follows the normal rules (empty input and leftover bytes are parse errors, so it never succeeds);
   * a type byte 0 in the tag never matches (`e > 0 && data[0] == e`);
   * `parseString` compares `uint32(len(in))` with the length (the truncation is modelled);
   * a `rest` field takes everything that is left, wherever it stands in the struct;
   * `parseNameList` maps empty contents to the empty list, otherwise splits at every comma;
-  * `decode` answers type 52 (userAuthSuccess) without looking at the rest of the packet, and
-    indexes `packet[0]` without a length check (empty packet ⇒ panic).
+  * `decode` answers errShortRead for the empty packet, and type 52 (userAuthSuccess) only for a
+    one-byte packet (anything longer is a parse error).
 -/
 import XC.Basic
 namespace XC.C24
@@ -154,12 +154,14 @@ def marshalFields : List Val → Option Bytes
     | some a, some b => some (a ++ b)
     | _, _ => none
 
+/-- `typeTags`: the type bytes of field 0's tag; a struct without fields has none -/
+def Schema.typeTags (s : Schema) : List UInt8 := if s.fields.isEmpty then [] else s.tags
+
 /-- `Marshal`: `none` = panic -/
 def marshal (s : Schema) (vs : List Val) : Option Bytes :=
-  if s.fields.isEmpty then none else
   match marshalFields vs with
   | none => none
-  | some body => some ((s.tags.take 1) ++ body)
+  | some body => some ((s.typeTags.take 1) ++ body)
 
 /-- a value has the kind the struct field demands (arrays have the declared length) -/
 def Val.hasKind : Val → Kind → Bool
@@ -219,13 +221,12 @@ def unmarshalFields : List Kind → Bytes → Except Err (List Val × Bytes)
 
 /-- `Unmarshal` -/
 def unmarshal (s : Schema) (data : Bytes) : Except Err (List Val) :=
-  if s.fields.isEmpty then .error .panic else
   match data with
   | [] => .error .parse
   | d0 :: tl =>
     let body : Except Err Bytes :=
-      if s.tags.isEmpty then .ok data
-      else if s.tags.any (fun e => e > 0 && d0 == e) then .ok tl
+      if s.typeTags.isEmpty then .ok data
+      else if s.typeTags.any (fun e => e > 0 && d0 == e) then .ok tl
       else .error .wrongType
     match body with
     | .error e => .error e
@@ -322,12 +323,12 @@ def decodeType : UInt8 → Option String
 /-- `decode` -/
 def decode (packet : Bytes) : Except Err (String × List Val) :=
   match packet with
-  | [] => .error .panic
-  | t :: _ =>
+  | [] => .error .short
+  | t :: tl =>
     match decodeType t with
     | none => .error .wrongType
     | some name =>
-      if t == 52 then .ok (name, []) else
+      if t == 52 then (if tl.isEmpty then .ok (name, []) else .error .parse) else
       match schemaOf name with
       | none => .error .panic
       | some s =>
